@@ -315,6 +315,25 @@ def r_write(ctx, model):
     ctx.floor("keyword x base pairs", n, 50)
 
 
+def requested_grid(e):
+    """labels rebuilt from the settings: qha's desired pressures ARE P_MIN + DELTA_P * (0 .. NTV-1) GPa (qha.tools.arange(P_MIN, NTV, DELTA_P), installed
+    source) and there are NTV of them - rewritten to the atom PDES so that both spellings compare equal"""
+    from ..facts import PMIN_S, DP_S, NTV_S
+    e = sp.sympify(e)
+    LEN, ARANGE = sp.Function("LEN"), sp.Function("ARANGE")
+    e = e.replace(lambda x: getattr(x, "func", None) is not None and getattr(x.func, "__name__", "") == "LEN" and PDES in x.free_symbols and len(x.free_symbols - set(U.UNIT_SYMBOLS) - {PDES}) == 0,
+                  lambda x: NTV_S)
+    grid = PMIN_S + DP_S * ARANGE(NTV_S)
+    w_ = sp.Wild("w_", exclude=[PMIN_S, DP_S])
+    e = sp.expand(e)
+    if e.has(ARANGE(NTV_S)):
+        coeff = e.coeff(ARANGE(NTV_S))
+        rest = sp.expand(e - coeff * ARANGE(NTV_S))
+        if coeff != 0 and sp.simplify(coeff / DP_S).is_number is not None and sp.simplify(rest * DP_S - coeff * PMIN_S) == 0:
+            return sp.simplify(coeff / DP_S) * PDES / GPA
+    return e
+
+
 def check_calls(ev, vol, prs, base_name, r, calls):
     problems = []
     prop = r["prop"]
@@ -347,8 +366,8 @@ def check_calls(ev, vol, prs, base_name, r, calls):
         if not is_zero(as_sym(b["t"]) - t_want):
             problems.append(f"{fname}: row labels are not the temperature array")
         if base_name == "tp":
-            lab = as_sym(b["desired_pressures_gpa"])
-            smp = as_sym(b["p_sample_gpa"])
+            lab = requested_grid(as_sym(b["desired_pressures_gpa"]))
+            smp = requested_grid(as_sym(b["p_sample_gpa"]))
             if not is_zero(lab - PDES / GPA) or not is_zero(smp - PDES / GPA):
                 problems.append(f"{fname}: column labels are not the requested pressures in GPa ({short(lab, 80)})")
         else:
